@@ -16,8 +16,14 @@ Definition is_union (m : mode) : bool := match m with Union => true | _ => false
 
 Definition mdf := option Tree -> option Tree -> option Tree.
 
-(* util.py:195-197: x unless x is None *)
-Definition prefer_self : mdf := fun x y => match x with Some _ => x | None => y end.
+(* python truth value of a metadata argument: None and the empty mapping are false *)
+Definition md_truthy (o : option Tree) : bool :=
+  match o with Some m => negb (md_falsy m) | None => false end.
+
+(* util.py:195-197 (after repair c0ec632f): x if x else y *)
+Definition prefer_self : mdf := fun x y => if md_truthy x then x else y.
+(* the definition before the repair: x if x is not None else y *)
+Definition prefer_self_old : mdf := fun x y => match x with Some _ => x | None => y end.
 
 (* ---- table.py:3391-3401: walk a followed by b, an id gets the next index the first time it
    is met; the dict is later turned into the list of ids by index (table.py:3879-3880) ---- *)
@@ -166,3 +172,16 @@ Definition id_set (m : mode) (ax : axis) (ts : list table) (x : Z) : Prop :=
   match m with Union => in_some ax ts x | Inter => in_all ax ts x | BadMode => False end.
 Definition cell_sum (ts : list table) (o s : Z) : Z := zsum (map (fun t => cell0 t o s) ts).
 Definition total (t : table) : Z := msum (mat t).
+
+(* the metadata of an id over self and a list of others: f applied from left to right *)
+Definition md_fold (f : mdf) (ax : axis) (self : table) (others : list table) (i : Z) : option Tree :=
+  fold_left (fun acc t => f acc (md_of ax t i)) others (md_of ax self i).
+(* a merge function that does not tell None from the empty dict and does not create metadata *)
+Definition respects_norm (f : mdf) : Prop :=
+  (forall x x' y y', md_norm x = md_norm x' -> md_norm y = md_norm y' -> md_norm (f x y) = md_norm (f x' y')) /\
+  md_norm (f None None) = None.
+
+(* vocabulary of the statements about one pairwise step *)
+Definition pair_ids (m : mode) (a b : list Z) (x : Z) : Prop :=
+  match m with Union => In x a \/ In x b | Inter => In x a /\ In x b | BadMode => False end.
+Definition axis_f {A} (ax : axis) (f_s f_o : A) : A := match ax with Obs => f_o | Samp => f_s end.
